@@ -366,3 +366,139 @@ func init() {
 		return vInt(sApp(fn, ts...), rt)
 	})}
 }
+
+// ---- operating system, io: "sys" effects with havocked results ----
+
+// sysCall emits event "sys:<name>" with a0..a4 = identity leaves of the arguments, a5..a7 = result leaves.
+func sysCall(name string, post func(r *FnRun, st *State, args []*V, res []*V)) *model {
+	return &model{doc: "Sys effect " + name + ": results havocked, recorded in the trace", emits: true, fams: []string{"ctxdone"},
+		fn: func(r *FnRun, st *State, fr *frame, instr ssa.Instruction, args []*V, k func(*State, *V)) {
+			c := callCommon(instr)
+			sig := c.Signature()
+			res := r.symResults(st, sig, "sys."+name)
+			if post != nil {
+				post(r, st, args, res)
+			}
+			ev := make([]string, 8)
+			for i := range ev {
+				ev[i] = "0"
+			}
+			i := 0
+			for _, a := range args {
+				if i > 4 {
+					break
+				}
+				ev[i] = identityLeaves(a)[0]
+				i++
+			}
+			j := 5
+			for _, v := range res {
+				for _, l := range leaves(v) {
+					if j > 7 {
+						break
+					}
+					ev[j] = l
+					j++
+				}
+			}
+			st.emit("sys:"+name, ev...)
+			k(st, resultV(st, sig, res))
+		}}
+}
+
+func init() {
+	errOnly := func(r *FnRun, st *State, args []*V, res []*V) {}
+	extModels["os.MkdirAll"] = sysCall("mkdirall", errOnly)
+	extModels["os.Chmod"] = sysCall("chmod", errOnly)
+	extModels["os.Rename"] = sysCall("rename", errOnly)
+	extModels["os.Remove"] = sysCall("remove", errOnly)
+	extModels["os.Stat"] = sysCall("stat", nil)
+	extModels["os.OpenFile"] = sysCall("openfile", func(r *FnRun, st *State, args []*V, res []*V) {
+		// (file, err): exactly one of them is set; a returned file is a new object
+		f, e := res[0], res[1]
+		st.assume(sEq(sEq(f.S, "0"), sNot(sEq(e.Tag, "0"))))
+		fresh := st.allocRef()
+		st.assume(sImp(sEq(e.Tag, "0"), sEq(f.S, fresh)))
+	})
+	extModels["(*os.File).Close"] = sysCall("close", errOnly)
+	extModels["path/filepath.Glob"] = sysCall("glob", func(r *FnRun, st *State, args []*V, res []*V) {
+		// fresh slice
+		fresh := st.allocRef()
+		st.assume(sAnd(sEq(res[0].Arr, fresh), sEq(res[0].Off, "0")))
+	})
+	extModels["(*os.File).Name"] = &model{doc: "uninterpreted function of the file", fn: simple(func(r *FnRun, st *State, instr ssa.Instruction, args []*V) *V {
+		r.eng.declare("(declare-fun |uf:file.Name| (Int) Int)")
+		return vInt("(|uf:file.Name| "+args[0].S+")", resType(instr))
+	})}
+	extModels["os.IsNotExist"] = &model{doc: "uninterpreted predicate of the error", fn: simple(func(r *FnRun, st *State, instr ssa.Instruction, args []*V) *V {
+		r.eng.declare("(declare-fun |uf:os.IsNotExist| (Int Int) Bool)")
+		return vBool(sAnd(sNot(sEq(args[0].Tag, "0")), "(|uf:os.IsNotExist| "+args[0].Tag+" "+args[0].Val+")"))
+	})}
+	extModels["sort.Strings"] = &model{doc: "elements of the slice become sorted (permutation not modelled); length unchanged", fams: []string{"elem:string"}, fn: simple(func(r *FnRun, st *State, instr ssa.Instruction, args []*V) *V {
+		s := args[0]
+		leaf := "elem:string"
+		old := st.comp(leaf, 2, "Int")
+		st.havocLeaf(leaf)
+		nw := st.comp(leaf, 2, "Int")
+		x := mangle("q:x")
+		st.assume("(forall ((" + x + " Int)) (! (=> (not (= " + x + " " + s.Arr + ")) (= (select " + nw + " " + x + ") (select " + old + " " + x + "))) :pattern ((select " + nw + " " + x + "))))")
+		r.eng.declare("(declare-fun strless (Int Int) Bool)")
+		i, j := mangle("q:i"), mangle("q:j")
+		st.assume("(forall ((" + i + " Int) (" + j + " Int)) (=> (and (<= 0 " + i + ") (< " + i + " " + j + ") (< " + j + " " + s.Len + ")) (not (strless (select (select " + nw + " " + s.Arr + ") " + st.ixTerm(s.Off, j) + ") (select (select " + nw + " " + s.Arr + ") " + st.ixTerm(s.Off, i) + ")))))")
+		return unit()
+	})}
+
+	// ---- bytes.Reader / bytes.Buffer ----
+	extModels["bytes.NewReader"] = &model{doc: "fresh reader over the given bytes, position 0", fams: []string{"reader"}, fn: simple(func(r *FnRun, st *State, instr ssa.Instruction, args []*V) *V {
+		ref := st.allocRef()
+		st.writeLeaf("reader#arr", []string{ref}, "Int", args[0].Arr)
+		st.writeLeaf("reader#off", []string{ref}, "Int", args[0].Off)
+		st.writeLeaf("reader#len", []string{ref}, "Int", args[0].Len)
+		st.writeLeaf("reader#pos", []string{ref}, "Int", "0")
+		return vInt(ref, resType(instr))
+	})}
+	extModels["(*bytes.Reader).Seek"] = &model{doc: "Seek(0, io.SeekStart) rewinds; other seeks havoc the position", fams: []string{"reader"}, fn: simple(func(r *FnRun, st *State, instr ssa.Instruction, args []*V) *V {
+		if args[1].S == "0" && args[2].S == "0" {
+			st.writeLeaf("reader#pos", []string{args[0].S}, "Int", "0")
+		} else {
+			p := r.fresh("seekpos", "Int")
+			st.assume("(>= " + p + " 0)")
+			st.writeLeaf("reader#pos", []string{args[0].S}, "Int", p)
+		}
+		c := callCommon(instr)
+		res := r.symResults(st, c.Signature(), "seek")
+		return resultV(st, c.Signature(), res)
+	})}
+	extModels["(*bytes.Reader).WriteTo"] = &model{doc: "one Write of all remaining bytes to the writer (event sys:write a0=writer a1=array a2=offset a3=length); err == nil implies everything was written; a short write is an error", emits: true, fams: []string{"reader", "ctxdone"},
+		fn: func(r *FnRun, st *State, fr *frame, instr ssa.Instruction, args []*V, k func(*State, *V)) {
+			rd, w := args[0].S, args[1]
+			arr := sSel(st.comp("reader#arr", 1, "Int"), rd)
+			off := sSel(st.comp("reader#off", 1, "Int"), rd)
+			ln := sSel(st.comp("reader#len", 1, "Int"), rd)
+			pos := sSel(st.comp("reader#pos", 1, "Int"), rd)
+			rem := st.nameV("rem", vInt("(- "+ln+" "+pos+")", nil)).S
+			st.assume("(>= " + rem + " 0)")
+			c := callCommon(instr)
+			sig := c.Signature()
+			res := r.symResults(st, sig, "writeto")
+			n, e := res[0], res[1]
+			st.assume(sAnd("(>= "+n.S+" 0)", "(<= "+n.S+" "+rem+")", sImp(sEq(e.Tag, "0"), sEq(n.S, rem))))
+			st.ctxDoneAdvance()
+			st.emit("sys:write", w.Val, arr, st.nameV("wpos", vInt("(+ "+off+" "+pos+")", nil)).S, rem, w.Tag, n.S, e.Tag, e.Val)
+			st.writeLeaf("reader#pos", []string{rd}, "Int", "(+ "+pos+" "+n.S+")")
+			k(st, resultV(st, sig, res))
+		}}
+	extModels["(*bytes.Buffer).Bytes"] = &model{doc: "the buffer's content as an abstract slice identified with the buffer state", fn: simple(func(r *FnRun, st *State, instr ssa.Instruction, args []*V) *V {
+		id := identityLeaves(args[0])[0]
+		content := sSel(st.comp("buf#content", 1, "Int"), id)
+		r.eng.declare("(declare-fun |uf:content.len| (Int) Int)")
+		ln := "(|uf:content.len| " + content + ")"
+		st.assume("(>= " + ln + " 0)")
+		// the returned slice's array identity is the content value itself: equal contents, equal bytes
+		return &V{K: KSlice, T: resType(instr), Arr: content, Off: "0", Len: ln, Cap: ln}
+	})}
+	extModels["(*bytes.Buffer).Reset"] = &model{doc: "content := empty", fams: []string{"buf"}, fn: simple(func(r *FnRun, st *State, instr ssa.Instruction, args []*V) *V {
+		st.writeLeaf("buf#content", []string{identityLeaves(args[0])[0]}, "Int", "0")
+		return unit()
+	})}
+}
